@@ -427,6 +427,35 @@ func (r *zzG11Rig) info() (info *zzG11Info, err error) {
 	return info, nil
 }
 
+// diskDiff compares what the server hands out for writing the configuration
+// file (WriteDiskConfig, LocalPTRResolvers, AddrProcConfig: what package home
+// puts into AdGuardHome.yaml) with what dns_info reports: a rejected request
+// must not reach the file either.
+func (r *zzG11Rig) diskDiff(info *zzG11Info) (diff string) {
+	dc := &Config{}
+	r.srv.WriteDiskConfig(dc)
+	var ds []string
+	for _, f := range []struct {
+		name      string
+		disk, inf []string
+	}{
+		{"upstream_dns", dc.UpstreamDNS, info.Up},
+		{"bootstrap_dns", dc.BootstrapDNS, info.Boot},
+		{"fallback_dns", dc.FallbackDNS, info.Fb},
+		{"local_ptr_upstreams", r.srv.LocalPTRResolvers(), info.Ptr},
+	} {
+		if !zzG11SameLines(f.disk, f.inf) {
+			ds = append(ds, fmt.Sprintf("%s to be written to the configuration file is %q, dns_info reports %q", f.name, f.disk, f.inf))
+		}
+	}
+
+	if use := r.srv.AddrProcConfig().UsePrivateRDNS; use != info.Use {
+		ds = append(ds, fmt.Sprintf("use_private_ptr_resolvers to be written is %v, dns_info reports %v", use, info.Use))
+	}
+
+	return strings.Join(ds, "; ")
+}
+
 // zzG11Obs is what one question produced.
 type zzG11Obs struct {
 	// Rcv lists the mocks (1-based, sorted) that received the question.
@@ -1004,6 +1033,7 @@ func zzG11Run(tour *zzG11Tour, ip netip.Addr, seed int64, only int, plain bool) 
 		switch st.A {
 		case "set":
 			body := conc.body(st.Req)
+			savedBefore := rig.saved
 			code, text := rig.setConfig(body)
 			stats["set"]++
 			bj, _ := json.Marshal(body)
@@ -1031,7 +1061,14 @@ func zzG11Run(tour *zzG11Tour, ip netip.Addr, seed int64, only int, plain bool) 
 				return nil, stats, ierr
 			}
 
-			if d := conc.infoDiff(info, &res.Cfg, tour.Sys); d != "" {
+			d := conc.infoDiff(info, &res.Cfg, tour.Sys)
+			if d == "" {
+				d = rig.diskDiff(info)
+			}
+			if d == "" && code != http.StatusOK && rig.saved != savedBefore {
+				d = "a rejected request made the server save its configuration"
+			}
+			if d != "" {
 				return mk(i, fmt.Sprintf("after dns_config -> %d: %s", code, d), map[string]any{"code": code, "info": info}), stats, nil
 			}
 
@@ -1446,6 +1483,7 @@ func zzG11History(h int, ip netip.Addr, seed int64, nsteps int) (lines []map[str
 			}
 
 			body := conc.body(req)
+			savedBefore := rig.saved
 			code, text := rig.setConfig(body)
 			info, ierr := rig.info()
 			if ierr != nil {
@@ -1475,6 +1513,12 @@ func zzG11History(h int, ip netip.Addr, seed int64, nsteps int) (lines []map[str
 
 			if !rig.srv.IsRunning() {
 				infobad = append(infobad, "the DNS server is not running")
+			}
+			if d := rig.diskDiff(info); d != "" {
+				infobad = append(infobad, d)
+			}
+			if code != http.StatusOK && rig.saved != savedBefore {
+				infobad = append(infobad, "a rejected request made the server save its configuration")
 			}
 
 			def := []string{}
